@@ -460,7 +460,7 @@ class SolverWorld(World):
 
 
 T_ALPHABET = ["AX", "AY", "AU", "P", "P2", "P0", "O", "O2", "O0", "R", "S", "Q", "M", "GV"]
-T_NAMES = {"AQO": "assert forall x'. exists idx[0], let. x' < idx[0] < let (bound names that need quoting)", "AQ": "assert forall q1 q2: V. q1=q2 (sort V occurs in the binder only)", "AX": "assert x<3", "AY": "assert a|x<y", "AU": "assert e1=e2 (sort U)", "P": "push", "P2": "push 2", "P0": "push 0",
+T_NAMES = {"AV": "assert arrs = [0][1 := xv] (xv occurs only as a stored value)", "AP": "assert pal[x] != pal[y] (sort W2 occurs only inside the sort of pal)", "AQO": "assert forall x'. exists idx[0], let. x' < idx[0] < let (bound names that need quoting)", "AQ": "assert forall q1 q2: V. q1=q2 (sort V occurs in the binder only)", "AX": "assert x<3", "AY": "assert a|x<y", "AU": "assert e1=e2 (sort U)", "P": "push", "P2": "push 2", "P0": "push 0",
            "O": "pop", "O0": "pop 0", "O2": "pop 2", "R": "reset_assertions", "S": "solve", "Q": "is_sat(b&x<z)", "M": "get_model", "GV": "get_value(x)"}
 
 
@@ -530,7 +530,9 @@ def t_sequences(max_len):
                     # a closed formula whose sort occurs in its binder only (declared although no symbol is new)
                     ("AQ", "S"), ("AX", "AQ", "S", "M"), ("P", "AQ", "O", "AQ", "S"), ("AQ", "R", "AQ", "S"), ("AX", "S", "AQ", "Q"),
                     ("P", "AQ", "S", "O", "AX", "S"),
-                    ("AQO", "S"), ("AX", "AQO", "S", "M"), ("P", "AQO", "O", "AQO", "S"), ("AQO", "Q")):
+                    ("AQO", "S"), ("AX", "AQO", "S", "M"), ("P", "AQO", "O", "AQO", "S"), ("AQO", "Q"),
+                    ("AV", "S"), ("P", "AV", "O", "AV", "S"), ("AX", "AV", "Q"), ("AP", "S"), ("P", "AP", "S", "O", "AP", "S"), ("AY", "AP", "Q"),
+                    ("P", "AV", "AP", "O", "AP", "AV", "S")):
             if t_legal(seq) and seq not in seen:
                 out.append(seq)
                 seen.add(seq)
@@ -567,7 +569,14 @@ def _text_chunk(seqs):
         # bound variables whose names need quoting (and a reserved word): the binder and the body must spell them alike
         xp, ix, lt_ = w.symbol("x'", INT), w.symbol("idx[0]", INT), w.symbol("let", INT)
         FQO = w.app("ForAll", [xp], w.app("Exists", [ix, lt_], w.app("And", w.app("LT", xp, ix), w.app("LT", ix, lt_))))
-        forms = {"AX": FX, "AY": FY, "AU": FU, "AQ": FQV, "AQO": FQO}
+        # a symbol that occurs only as a value stored in an array value; a sort that occurs only inside an array sort
+        xv = w.symbol("xv", INT)
+        arrs = w.symbol("arrs", ("ARRAY", INT, INT))
+        FAV = w.app("Equals", arrs, w.app("Array", w.tyobj(INT), w.int_const(0), {w.int_const(1): xv}))
+        W2 = ("CUSTOM", "W2")
+        pal = w.symbol("pal", ("ARRAY", INT, W2))
+        FAP = w.app("Not", w.app("Equals", w.app("Select", pal, x), w.app("Select", pal, y)))
+        forms = {"AX": FX, "AY": FY, "AU": FU, "AQ": FQV, "AQO": FQO, "AV": FAV, "AP": FAP}
         model = {"x": 1, "y": 2, "z": 5, "a": True, "b": True}
         logic = it.module_global(w.repo.modules["pysmt.logics"], "QF_UFLIA")
         out = []
@@ -1601,7 +1610,11 @@ def _opt_job(job):
                        w.app("Equals", v, w.app("BVAdd", u, w.bv_const(1, 3)))]
             doms = {u: range(8), v: range(8)}
             goals = [("max u", Max, [u, sg]), ("min u", Min, [u, sg]), ("max v", Max, [v, sg]), ("min v", Min, [v, sg]),
-                     ("minmax u,v", MinMax, [[u, v], sg]), ("maxmin u,v", MaxMin, [[u, v], sg])]
+                     ("minmax u,v", MinMax, [[u, v], sg]), ("maxmin u,v", MaxMin, [[u, v], sg]),
+                     # constant operands on both sides of the sign bit (6 = -2 signed)
+                     ("maxmin u,v,6,3", MaxMin, [[u, v, w.bv_const(6, 3), w.bv_const(3, 3)], sg]),
+                     ("minmax u,v,6,3", MinMax, [[u, v, w.bv_const(6, 3), w.bv_const(3, 3)], sg]),
+                     ("minmax 1,u,5", MinMax, [[w.bv_const(1, 3), u, w.bv_const(5, 3)], sg])]
         elif scen == "bv-signed-front":
             # u + v = 0 over 3 signed bits (u != -4): no point dominates another, negative values on the front
             asserts = [w.app("Equals", w.app("BVAdd", u, v), w.bv_const(0, 3)), w.app("Not", w.app("Equals", u, w.bv_const(4, 3)))]
